@@ -522,8 +522,11 @@ class PkgGen:
             m["enums"].append({"kind": "enum", "name": en, "qname": f"{qn}.{en}", "members": members, "method": r.random() < 0.5,
                                "doc": self.marker(f"enum {en}") if r.random() < self.docs else ""})
         ag = AnnGen(r, local + (avail if self.cross_refs else []))
-        for _ in range(r.choice([1, 2, 3, 4])):
+        for k in range(r.choice([1, 2, 3, 4])):
             fn = self.names.pick(FUNCS, used, self.private_rate)
+            if k == 0 and len(name) % 5 == 0 and name not in used:
+                fn = name              # a function named like its module (copy.copy, pprint.pprint)
+                used.add(fn)
             m["functions"].append(self.function(ag, fn))
         return m, local
 
